@@ -415,3 +415,17 @@ func (e *Engine) namedType(pkgName, name string) types.Type {
 	}
 	return nil
 }
+
+// bareTr: a translation context without a root function (spec lemmas).
+func (e *Engine) bareTr() *Tr {
+	tr := &Tr{eng: e, comps: map[string]*Component{}, oblCount: map[string]int{}, panicMode: "ignore",
+		initHeap: map[string]*HeapV{}, usedStubs: map[string]bool{}, inlined: map[string]bool{}, havocked: map[string]bool{},
+		declared: map[string]bool{}, unfolded: map[string]bool{}, usedContracts: map[string]bool{}, usedAssumed: map[string]bool{}, atDone: map[string]bool{}}
+	tr.alloc0 = tr.freshConst("alloc0", "Int")
+	tr.assume(app(">=", tr.alloc0, "0"), "allocation counter non-negative")
+	a := &Act{tr: tr, vals: map[ssa.Value]Term{}, tups: map[ssa.Value][]Term{}, lvs: map[ssa.Value]*LV{},
+		closures: map[ssa.Value]*Closure{}, edges: map[[2]int]*State{}, loops: map[*ssa.BasicBlock]*loopInfo{}, phiOverride: map[*ssa.Phi]Term{}}
+	a.entryState = &State{reach: "true", heap: map[string]*HeapV{}, alloc: tr.alloc0, defers: map[*ssa.Defer]Term{}, owned: map[string]ownedCell{}}
+	tr.rootAct = a
+	return tr
+}
